@@ -75,7 +75,64 @@ pub fn run_model(
     let mut st: BTreeMap<SocketAddr, Contact> = sc.world.stubs.iter().map(|s| (s.addr, Contact::default())).collect();
     // outstanding queries: (dst, tid) -> send time
     let mut outstanding: BTreeMap<(SocketAddr, Vec<u8>), u64> = BTreeMap::new();
+    // slow bootstrap worker (NetCfg.worker_stall_*): for a stalled send the node marks the contact and
+    // takes the answer only when the worker gets the CPU back. (dst, tid) -> instant of resumption
+    let mut resume: BTreeMap<(SocketAddr, Vec<u8>), u64> = BTreeMap::new();
     for e in &run.log {
+        if let Ev::Fault { t, what } = e {
+            let w: Vec<&str> = what.split(' ').collect();
+            if w.len() == 4 && w[0] == "worker_stall" {
+                if let (Ok(a), Ok(ms)) = (w[1].parse::<SocketAddr>(), w[3].parse::<u64>()) {
+                    resume.insert((a, crate::krpc::unhex(w[2])), *t + ms);
+                }
+            }
+        }
+    }
+    // timeline: log events in order, plus the deferred effects of stalled sends at their instants
+    #[derive(Clone, Copy)]
+    enum Item {
+        Log(usize),
+        /// the worker marks the contact it has just (finally) finished sending to
+        Mark(usize),
+        /// the worker takes the answer that has been waiting
+        Resp(usize),
+    }
+    let mut items: Vec<(u64, u8, usize, Item)> = Vec::with_capacity(run.log.len());
+    for (i, e) in run.log.iter().enumerate() {
+        items.push((e.t(), 0, i, Item::Log(i)));
+        if resume.is_empty() {
+            continue;
+        }
+        match e {
+            Ev::Send { src, dst, bytes, src_kind: EpKind::Real, .. } if *src == node => {
+                if let Some(m) = Msg::parse(bytes) {
+                    if let Some(r) = resume.get(&(*dst, m.t.clone())) {
+                        if m.is_query() {
+                            items.push((*r, 1, i, Item::Mark(i)));
+                        }
+                    }
+                }
+            }
+            Ev::Recv { t, src, dst, bytes, .. } if *dst == node => {
+                if let Some(m) = Msg::parse(bytes) {
+                    if let Some(r) = resume.get(&(*src, m.t.clone())) {
+                        if m.is_response() && *t < *r {
+                            items.push((*r, 2, i, Item::Resp(i)));
+                        }
+                    }
+                }
+            }
+            _ => {}
+        }
+    }
+    if !resume.is_empty() {
+        items.sort_by_key(|x| (x.0, x.1, x.2));
+    }
+    for (now, _, _, item) in items {
+        let (e, deferred) = match item {
+            Item::Log(i) => (&run.log[i], false),
+            Item::Mark(i) | Item::Resp(i) => (&run.log[i], true),
+        };
         match e {
             Ev::Send { t, src, dst, bytes, src_kind: EpKind::Real, outcome, .. } if *src == node => {
                 let m = match Msg::parse(bytes) {
@@ -85,19 +142,24 @@ pub fn run_model(
                 if m.is_query() {
                     if let Some(c) = st.get_mut(dst) {
                         let _ = outcome;
-                        // answers to announce_peer are never accepted: the search that sent it is
-                        // gone by the time they arrive
-                        if m.qname() != Some("announce_peer") {
-                            outstanding.insert((*dst, m.t.clone()), *t);
+                        let stalled = resume.contains_key(&(*dst, m.t.clone()));
+                        if !deferred {
+                            // answers to announce_peer are never accepted: the search that sent it is
+                            // gone by the time they arrive
+                            if m.qname() != Some("announce_peer") {
+                                outstanding.insert((*dst, m.t.clone()), *t);
+                            }
                         }
-                        // the first bootstrap round (find_node for the own id) is not recorded on the node
-                        let initial_round = m.qname() == Some("find_node") && m.args().and_then(|a| a.get("target")).and_then(id20) == Some(own);
-                        if !initial_round && c.live(*t, ro) && !c.good(*t, ro) {
-                            c.unanswered += 1;
+                        if deferred || !stalled {
+                            // the first bootstrap round (find_node for the own id) is not recorded on the node
+                            let initial_round = m.qname() == Some("find_node") && m.args().and_then(|a| a.get("target")).and_then(id20) == Some(own);
+                            if !initial_round && c.live(now, ro) && !c.good(now, ro) {
+                                c.unanswered += 1;
+                            }
                         }
-                        c.touched = (*t).max(1);
+                        c.touched = now.max(1);
                     }
-                } else if m.is_response() {
+                } else if m.is_response() && !deferred {
                     // find_node / get_peers reply to a probe
                     if !st.contains_key(dst) {
                         if let Some(r) = m.resp() {
@@ -133,15 +195,22 @@ pub fn run_model(
                     }
                     c.touched = (*t).max(1);
                 } else if let Some(r) = m.resp() {
+                    // the answer to a stalled send waits for the worker
+                    if !deferred && resume.get(&(*src, m.t.clone())).map(|x| *t < *x).unwrap_or(false) {
+                        if let Some(c) = st.get_mut(src) {
+                            c.touched = (*t).max(1);
+                        }
+                        continue;
+                    }
                     if outstanding.remove(&(*src, m.t.clone())).is_some() {
                         let same_id = r.get("id").and_then(id20) == ids.get(src).copied();
                         if same_id {
                             let c = st.get_mut(src).unwrap();
                             c.known = true;
-                            c.last_answer = Some(*t);
+                            c.last_answer = Some(now);
                             c.unanswered = 0;
-                            c.touched = (*t).max(1);
-                            c.ever_seen.get_or_insert(*t);
+                            c.touched = now.max(1);
+                            c.ever_seen.get_or_insert(now);
                         }
                         let named = r
                             .get(if v6 { "nodes6" } else { "nodes" })
@@ -153,21 +222,21 @@ pub fn run_model(
                                 continue;
                             }
                             let d = st.get_mut(&na).unwrap();
-                            d.last_named = Some(*t);
-                            d.touched = (*t).max(1);
-                            if !d.live(*t, ro) {
+                            d.last_named = Some(now);
+                            d.touched = now.max(1);
+                            if !d.live(now, ro) {
                                 // (re-)admitted exactly like a node heard of for the first time
                                 d.known = true;
                                 d.last_answer = None;
                                 d.last_query = None;
                                 d.unanswered = 0;
-                                d.ever_seen.get_or_insert(*t);
+                                d.ever_seen.get_or_insert(now);
                             }
                         }
                     }
                 }
             }
-            Ev::Api { t, ev: ApiEv::Sample { contacts: Some((g, q)), .. }, .. } => {
+            Ev::Api { t, ev: ApiEv::Sample { contacts: Some((g, q)), .. }, .. } if !deferred => {
                 on_sample(&ModelSample { t: *t, good: g.iter().copied().collect(), questionable: q.iter().copied().collect(), state: st.clone() });
             }
             _ => {}
